@@ -17,6 +17,7 @@ import (
 	"verif/lib/packcase"
 	"verif/lib/pk"
 	"verif/lib/refignore"
+	"verif/lib/tarx"
 )
 
 func TestMain(m *testing.M) { ev.Main(m, "C05") }
@@ -179,6 +180,69 @@ func checkLeak(c packcase.Case) error {
 				continue
 			}
 			return fmt.Errorf("link entry %q -> %q rises above the archive root at its own position", name, e.Linkname)
+		}
+	}
+	// (b') a dereferenced out-of-tree link is replaced by a copy of what it points to - the way the
+	// operating system follows it, also where a directory link on the way makes ".." mean something else
+	if c.Opts.Deref {
+		byName := map[string]tarx.Decoded{}
+		for _, e := range run.Entries {
+			byName[strings.TrimSuffix(e.Name, "/")] = e
+		}
+		same := func(e tarx.Decoded, phys string) string {
+			fi, err := os.Lstat(phys)
+			if err != nil || !fi.Mode().IsRegular() || e.Typeflag != tar.TypeReg {
+				return ""
+			}
+			content, err := os.ReadFile(phys)
+			if err != nil {
+				return ""
+			}
+			want := string(content)
+			if len(want) <= 256 && e.Body != want {
+				return fmt.Sprintf("carries %q, the link leads to %s with content %q", e.Body, phys, want)
+			}
+			if e.BodyLen != int64(len(content)) {
+				return fmt.Sprintf("carries %d bytes, the link leads to %s with %d bytes", e.BodyLen, phys, len(content))
+			}
+			if e.Mode&0777 != int64(fi.Mode().Perm()) {
+				return fmt.Sprintf("has mode %o, the link leads to %s with mode %o", e.Mode&0777, phys, fi.Mode().Perm())
+			}
+			return ""
+		}
+		for _, l := range links {
+			if !l.Outside {
+				continue
+			}
+			res, exists, loop := fsx.Resolve(filepath.Dir(filepath.Join(run.Src, l.Path)), l.Target)
+			if loop || !exists {
+				continue
+			}
+			fi, err := os.Lstat(res)
+			if err != nil {
+				continue
+			}
+			if e, ok := byName[l.Path]; ok && fi.Mode().IsRegular() {
+				if d := same(e, res); d != "" {
+					return fmt.Errorf("dereferenced link %q -> %q: entry %s", l.Path, l.Target, d)
+				}
+				ev.Label("deref-file-compared")
+			}
+			if fi.IsDir() {
+				for name, e := range byName {
+					if !strings.HasPrefix(name, l.Path+"/") {
+						continue
+					}
+					phys := filepath.Join(res, strings.TrimPrefix(name, l.Path+"/"))
+					if _, err := os.Lstat(phys); err != nil {
+						return fmt.Errorf("dereferenced link %q -> %q leads to the directory %s, but the slug has the entry %q, which does not exist there", l.Path, l.Target, res, name)
+					}
+					if d := same(e, phys); d != "" {
+						return fmt.Errorf("dereferenced link %q -> %q: entry %q %s", l.Path, l.Target, name, d)
+					}
+				}
+				ev.Label("deref-dir-compared")
+			}
 		}
 	}
 	// (e) Unpack accepts the slug when all links are relative
